@@ -4,6 +4,7 @@ import Usual.C05.Keccak
 import Usual.C05.Sha3
 import Usual.C05.Hmac
 import Usual.C05.ChaCha
+import Usual.C05.Digests
 /-! Model driver for C05 (line protocol, see harness/C05/h.c for the implementation side). -/
 open Usual Usual.C05
 
@@ -15,12 +16,7 @@ abbrev M64 := MD.Ctx (Array UInt64)
 
 def fK : Bytes → Bytes := Keccak.fBytes
 
-def mdDigest {σ : Type} (A : MD.Alg σ) (rlen : Nat) : Hmac.Digest (MD.Ctx σ) :=
-  { blockLen := A.B, resultLen := rlen, init := MD.reset A, update := MD.update A, final := MD.final A }
-
-def sha3Digest (params : Nat × Nat × UInt8) : Hmac.Digest Sha3.Ctx :=
-  { blockLen := (1600 - params.1) / 8, resultLen := params.2.1, init := Sha3.reset params,
-    update := Sha3.update fK, final := fun c => (Sha3.final fK c).1 }
+def sha3Digest (params : Nat × Nat × UInt8) : Hmac.Digest Sha3.Ctx := Usual.C05.sha3Digest fK params
 
 /-- a digest context of one of the three state shapes -/
 inductive DCtx
